@@ -1,6 +1,6 @@
 (* C20: risk caps and configuration bounds under any update sequence.  Statements only. *)
 From MP.Model Require Import Prelude U128 SInt Feed Vamm VammOps Token World Engine Runtime.
-From MP.Proofs Require Import Tactics SIntFacts ConfigFacts.
+From MP.Proofs Require Import Tactics SIntFacts ConfigFacts ConfigReachFacts.
 
 (* instantiate establishes the engine bounds: every ratio in [0, 1], maintenance <= initial *)
 Theorem C20_engine_instantiate : forall s p i fpool d init maint liqfee e,
@@ -59,3 +59,22 @@ Theorem C20_holding_cap : forall w v size t u,
   (v_hold_cap (vc vm) <> 0 -> is_whitelisted w t = false -> size <= v_hold_cap (vc vm)).
 Proof. exact holding_cap. Qed.
 Print Assumptions C20_holding_cap.
+
+(* OVER HISTORIES.  c20_inv w: every engine ratio (initial, maintenance, partial-liquidation, liquidation fee) is in
+   [0,1] and maintenance <= initial; every vAMM's toll, spread and fluctuation limit are in [0,1] and its TWAP interval
+   is between one minute and one week; every vAMM in the insurance fund's registry has the engine's decimals.
+   Every operation (of any contract, by any sender, with unsigned configuration values) preserves it - accepted or
+   not - hence it holds in every state reachable from a state that satisfies it, e.g. a fresh deployment
+   (C20_engine_instantiate, C20_vamm_instantiate, empty registry). *)
+Theorem C20_config_step : forall f w o, op_unsigned o -> c20_inv w -> c20_inv (fst (step_f f w o)).
+Proof. exact step_c20. Qed.
+Print Assumptions C20_config_step.
+
+Theorem C20_config_reachable : forall ops w, Forall op_unsigned ops -> c20_inv w -> c20_inv (run w ops).
+Proof. exact run_c20. Qed.
+Print Assumptions C20_config_reachable.
+
+Theorem C20_config_initial : forall w,
+  ecfg_ok (ec (w_eng w)) -> (forall v vm, zfind v (w_vamms w) = Some vm -> vcfg_ok (vc vm)) -> if_vamms (w_if w) = [] -> c20_inv w.
+Proof. exact c20_initial. Qed.
+Print Assumptions C20_config_initial.
